@@ -5,6 +5,8 @@ import Ledger.Proofs.MachineBal
     floor. -/
 namespace Ledger.Machine
 
+variable {cfg : Cfg}
+
 /-- Funds of account `a`, asset `c`, inside one funding. -/
 def fl (a c : String) (f : Funding) : Int := if f.asset = c then acctTotal a f.parts else 0
 
@@ -105,6 +107,21 @@ theorem withdrawAll_delta {b b' : Balances} {acc asset : String} {od : Option In
   have hp : p = ⟨acc, p.amount⟩ := by cases p; simp_all
   rw [hp, fl_single]
   split <;> simp <;> omega
+
+theorem checkOverdraft_spec {cfg : Cfg} {asset : String} {od r : String × Option Int}
+    (h : checkOverdraft cfg asset od = .ok r) :
+    r.1 = od.1 ∧ nilAsZero r.2 = nilAsZero od.2 ∧ (cfg.overdraftAssetCheck = true → od.1 = asset) := by
+  unfold checkOverdraft at h
+  split at h
+  · rename_i hc
+    split at h
+    · cases h
+    · rename_i ha
+      cases h
+      refine ⟨rfl, by simp [nilAsZero], fun _ => by simpa using ha⟩
+  · rename_i hc
+    cases h
+    exact ⟨rfl, rfl, fun x => absurd x hc⟩
 
 /-! ### Hypothesis of C23 on the syntax -/
 
@@ -396,9 +413,9 @@ theorem SrcOK.single_of_delta {b b' : Balances} {f : Funding} (hn : partsNonneg 
   delta := hd.congr (by intro a c; simp [inFlight])
 
 mutual
-  theorem evalSource_ok (env : Env) (asset : String) :
+  theorem evalSource_ok (cfg : Cfg) (env : Env) (asset : String) :
       (s : Source) → (b : Balances) → (f : Funding) → (b' : Balances) →
-      evalSource env asset s b = .ok (f, b') →
+      evalSource cfg env asset s b = .ok (f, b') →
       SrcOK b b' [f] ∧
       (∀ a c B, a ≠ "world" → 0 ≤ B → b.WF → SrcBound env a c B s → Floor a c B b b')
     | .account e od, b, f, b', h => by
@@ -440,25 +457,30 @@ mutual
           simp only at h
           split at h
           · cases h
-          · rename_i oa ov hmon
+          · rename_i odv hmon
             split at h
             · cases h
-            · rename_i p b1 hw
-              cases h
-              obtain ⟨w0, w1, _, _, w4, w5⟩ := withdrawAll_spec hw
-              refine ⟨SrcOK.single_of_delta (partsNonneg_cons.mpr ⟨w1, partsNonneg_nil⟩)
-                (withdrawAll_delta hw), ?_⟩
-              intro a c B ha hB _ hb
-              simp only [SrcBound, leafOK] at hb
-              by_cases hx : a = acc ∧ c = oa
-              · obtain ⟨rfl, rfl⟩ := hx
-                intro v hv
-                obtain ⟨v', g1, g2⟩ := w5 v hv
-                have := hb hacc c ov hmon rfl
-                exact ⟨v', g1, by omega⟩
-              · intro v hv
-                refine ⟨v, ?_, by omega⟩
-                rw [w4 a c v hv]; simp [hx]
+            · rename_i oa ov hchk
+              obtain ⟨c1, c2, _⟩ := checkOverdraft_spec hchk
+              simp only at c1 c2
+              split at h
+              · cases h
+              · rename_i p b1 hw
+                cases h
+                obtain ⟨w0, w1, _, _, w4, w5⟩ := withdrawAll_spec hw
+                refine ⟨SrcOK.single_of_delta (partsNonneg_cons.mpr ⟨w1, partsNonneg_nil⟩)
+                  (withdrawAll_delta hw), ?_⟩
+                intro a c B ha hB _ hb
+                simp only [SrcBound, leafOK] at hb
+                by_cases hx : a = acc ∧ c = oa
+                · obtain ⟨rfl, rfl⟩ := hx
+                  intro v hv
+                  obtain ⟨v', g1, g2⟩ := w5 v hv
+                  have := hb hacc odv.1 odv.2 (by rw [hmon]) c1.symm
+                  exact ⟨v', g1, by omega⟩
+                · intro v hv
+                  refine ⟨v, ?_, by omega⟩
+                  rw [w4 a c v hv]; simp [hx]
         | unbounded =>
           simp only at h
           cases h
@@ -475,7 +497,7 @@ mutual
       split at h
       · cases h
       · rename_i f0 b1 hs
-        obtain ⟨i1, i2⟩ := evalSource_ok env asset s b f0 b1 hs
+        obtain ⟨i1, i2⟩ := evalSource_ok cfg env asset s b f0 b1 hs
         split at h
         · cases h
         · rename_i mon _
@@ -494,7 +516,7 @@ mutual
       split at h
       · cases h
       · rename_i fs b1 hs
-        obtain ⟨i1, i2⟩ := evalSources_ok env asset ss b fs b1 hs
+        obtain ⟨i1, i2⟩ := evalSources_ok cfg env asset ss b fs b1 hs
         split at h
         · cases h
         · rename_i f1 hasm
@@ -505,9 +527,9 @@ mutual
           · intro a c B ha hB hwf hb
             simp only [SrcBound] at hb
             exact i2 a c B ha hB hwf hb
-  theorem evalSources_ok (env : Env) (asset : String) :
+  theorem evalSources_ok (cfg : Cfg) (env : Env) (asset : String) :
       (ss : SourceList) → (b : Balances) → (fs : List Funding) → (b' : Balances) →
-      evalSources env asset ss b = .ok (fs, b') →
+      evalSources cfg env asset ss b = .ok (fs, b') →
       SrcOK b b' fs ∧
       (∀ a c B, a ≠ "world" → 0 ≤ B → b.WF → SrcsBound env a c B ss → Floor a c B b b')
     | .nil, b, fs, b', h => by
@@ -521,11 +543,11 @@ mutual
       split at h
       · cases h
       · rename_i f b1 hs
-        obtain ⟨i1, i2⟩ := evalSource_ok env asset s b f b1 hs
+        obtain ⟨i1, i2⟩ := evalSource_ok cfg env asset s b f b1 hs
         split at h
         · cases h
         · rename_i fs' b2 hss
-          obtain ⟨j1, j2⟩ := evalSources_ok env asset ss b1 fs' b2 hss
+          obtain ⟨j1, j2⟩ := evalSources_ok cfg env asset ss b1 fs' b2 hss
           cases h
           refine ⟨i1.cons j1, ?_⟩
           intro a c B ha hB hwf hb
